@@ -340,7 +340,10 @@ func (p *Plugin) out(workerData *pipeline.WorkerData, batch *pipeline.Batch) err
 
 	dataArr := root.AddFieldNoAlloc(root, "data").MutateToArray()
 	batch.ForEach(func(event *pipeline.Event) {
-		dataArr.AddElementNoAlloc(root).MutateToNode(event.Root.Node)
+		// send() removes the timestamp and message fields from the elements of dataArr, so they must be
+		// copies: a shallow MutateToNode shares the field nodes with the event and re-links them, which
+		// damages the event for a retry of the batch
+		dataArr.AddElementNoAlloc(root).MutateToJSON(root, event.Root.EncodeToString())
 	})
 
 	code, err := p.send(root)
